@@ -5,6 +5,7 @@ import (
 	"math"
 	"strings"
 	"testing"
+	"time"
 
 	age "github.com/craterdog/go-collection-framework/v4/agent"
 	col "github.com/craterdog/go-collection-framework/v4/collection"
@@ -246,7 +247,9 @@ var (
 	// goes down), so that the first key in sorted order decides and any other order of looking at the keys gives
 	// another answer
 	seRecord = setElem[map[string]int]{"record", 64, func(c int) map[string]int { return map[string]int{"x": c, "y": 100 - c, "z": c % 5} }, func(c int) int { return c },
-		func(a, b map[string]int) bool { return a["x"] == b["x"] && a["y"] == b["y"] && a["z"] == b["z"] && len(a) == len(b) },
+		func(a, b map[string]int) bool {
+			return a["x"] == b["x"] && a["y"] == b["y"] && a["z"] == b["z"] && len(a) == len(b)
+		},
 		func(a, b map[string]int) bool { return a["x"] < b["x"] }, func(v map[string]int) int { return v["x"] / 7 }}
 	seInts = setElem[[]int]{"ints", 64, intsOfCode, func(c int) int { return c }, sameInts, lessInts, func(v []int) int { return len(v) }}
 	seAny  = setElem[any]{"any", len(anyPool), func(c int) any { return anyPool[c%len(anyPool)] }, func(c int) int { return anyPoolClass[c%len(anyPool)] },
@@ -777,4 +780,6 @@ func TestC02(t *testing.T) {
 	core.DFS(r, core.Check[largeCase]{Name: "large-sizes", Gen: genLarge([]string{"Set"}), Exec: execLarge("C02"), NoJournal: true}, 0)
 	core.Rapid(r, core.Check[setCase]{Name: "history", Gen: genSetCase, Exec: execSetCase}, r.N(3000, 30000))
 	core.DFS(r, core.Check[setPermCase]{Name: "insertion-orders", Gen: genSetPerm, Exec: execSetPerm, NoJournal: true}, 0)
+	core.DFS(r, core.Check[reentrantCase]{Name: "reentrant-elements", Gen: genReentrant([]string{"Set", "SetAlgebra"}), Exec: execReentrant("C02"), NoJournal: true}, 0)
+	core.DFS(r, core.Check[longLivedCase]{Name: "long-lived-instance", Gen: genLongLived([]string{"Set"}, r.N(150000, 1200000)), Exec: execLongLived("C02"), NoJournal: true, HangLimit: 300 * time.Second}, 0)
 }
